@@ -118,15 +118,19 @@ GLM_FUNC_QUALIFIER glm_vec4 glm_vec4_sign(glm_vec4 x)
 
 GLM_FUNC_QUALIFIER glm_vec4 glm_vec4_round(glm_vec4 x)
 {
+	// Halfway cases are rounded away from zero, as std::round does: add the largest value below 0.5 with the sign of x and truncate
+	glm_vec4 const sgn0 = _mm_castsi128_ps(_mm_set1_epi32(int(0x80000000)));
+	glm_vec4 const and0 = _mm_and_ps(sgn0, x);
+	glm_vec4 const or0 = _mm_or_ps(and0, _mm_set_ps1(0.49999997f));
+	glm_vec4 const add0 = glm_vec4_add(x, or0);
 #	if GLM_ARCH & GLM_ARCH_SSE41_BIT
-		return _mm_round_ps(x, _MM_FROUND_TO_NEAREST_INT);
+		return _mm_round_ps(add0, _MM_FROUND_TO_ZERO);
 #	else
-		glm_vec4 const sgn0 = _mm_castsi128_ps(_mm_set1_epi32(int(0x80000000)));
-		glm_vec4 const and0 = _mm_and_ps(sgn0, x);
-		glm_vec4 const or0 = _mm_or_ps(and0, _mm_set_ps1(8388608.0f));
-		glm_vec4 const add0 = glm_vec4_add(x, or0);
-		glm_vec4 const sub0 = glm_vec4_sub(add0, or0);
-		return sub0;
+		glm_vec4 const cvt0 = _mm_cvtepi32_ps(_mm_cvttps_epi32(add0));
+		glm_vec4 const or1 = _mm_or_ps(cvt0, and0);
+		// Values of magnitude 2^23 and above (and NaN) are already integers and may not fit an int
+		glm_vec4 const cmp0 = _mm_cmpnlt_ps(_mm_andnot_ps(sgn0, x), _mm_set_ps1(8388608.0f));
+		return _mm_or_ps(_mm_and_ps(cmp0, x), _mm_andnot_ps(cmp0, or1));
 #	endif
 }
 
